@@ -171,7 +171,9 @@ def schedule(h, solver="BackwardEuler", system="contact", cont=False):
             out["rows_ok"] = all(r == len(sol.t) for r in rows)
         except (RuntimeError, AssertionError, ValueError) as e:
             out["raised"] = type(e).__name__
-    notices = [m for m in cap["warnings"] + cap["prints"] if "not converged" in m.lower() or "unconverged" in m.lower()]
+    said = lambda m: "not converged" in m.lower() or "unconverged" in m.lower()
+    warned = [m for m in cap["warnings"] if said(m)]
+    notices = warned + [m for m in cap["prints"] if said(m)]
     # failure events: per step, the last outcome of each kind
     last = {}
     for (s, kind, v) in mon.decisions:
@@ -183,10 +185,12 @@ def schedule(h, solver="BackwardEuler", system="contact", cont=False):
         if out["raised"]:
             ok = True
         elif cont:
-            ok = bool(notices)
+            ok = bool(warned)           # "it warns and continues": a Python warning, not only a line on stdout
         else:
-            # returned: must say so, name the stop, and hold only steps completed before the failing one
-            ok = bool(notices) and out["nt"] is not None and out["nt"] <= first
+            # returned: must say so, and hold only steps completed before the failing one (time integrators store the
+            # initial state as row 0; the static solver also has to SOLVE its first load step)
+            allowed = first - 1 if solver == "Newton" else first
+            ok = bool(notices) and out["nt"] is not None and out["nt"] <= allowed
         h.holds("a failed nonlinear solve / fixed-point loop raises, or warns (and returns converged steps only)", ok,
                 info=f"failed steps {failed_steps}, raised={out['raised']}, nt={out['nt']}, notices={notices[:2]}")
     elif all(v for (_, _, v) in mon.decisions):
